@@ -57,6 +57,13 @@ for lf in [("keys",), ("get",), ("clone",), ("a", "items"), ("a", "clear"), ("a"
     SHAPE[lf] = "leaf"
 SHAPE[("update",)] = "sec"
 KEYS += METHOD_NAMES
+# settings named like attributes of `type` (the METACLASS) that instances do not have: plain settings for the clean code
+# (`key not in dir(obj)`), so they are read, written and deleted by ATTRIBUTE syntax as well as by item syntax
+META_NAMES = ["mro", "__name__", "__qualname__", "__bases__"]
+for lf in [("mro",), ("__name__",), ("a", "mro"), ("a", "__qualname__"), ("b", "__bases__"), ("b", "b", "mro"),
+           ("a", "a", "__name__"), ("update", "mro"), ("n", "mro")]:
+    SHAPE[lf] = "leaf"
+KEYS += META_NAMES
 
 
 def plain_syntax(op):
@@ -145,7 +152,8 @@ def sections(t, pre=()):
 def gen_env(rng, t):
     env = {}
     for p, old in cfglib.leaves(t):
-        if isinstance(old, list) or rng.random() > 0.3 or (in_mods_only(p) and rng.random() < 0.9):
+        if isinstance(old, list) or rng.random() > 0.3 or (in_mods_only(p) and rng.random() < 0.9) \
+                or any("_" in k for k in p):
             continue
         env["_".join(p).upper()] = rng.choice(["0", "1", "7", "42"]) if p[-1] != "c" else rng.choice(["0", "1", "", "yes"])
     if rng.random() < 0.3:
